@@ -267,6 +267,8 @@ theorem wf_run (ops : List Op) (st : St) (h : st.wf) : (run ops st).wf := by
 
 /-! ### given vs enumerated -/
 
+theorem beq_term (a b : Term) : (a == b) = decide (a = b) := rfl
+
 theorem filter_entry (o : Option Term) (nm : String) (q : Term) :
     ((o.map fun v' => (⟨A nm, v'⟩ : Args)).toList.filter fun a => decide (a.f = q)) =
       if A nm = q then (o.map fun v' => (⟨A nm, v'⟩ : Args)).toList else [] := by
